@@ -98,12 +98,16 @@ def judge(text, layout):
             files = {'main.mal': text}
         elif layout == 1:
             files = {'main.mal': '#id: "r"\n#version: "1.0.0"\ninclude "inc.mal"\n', 'inc.mal': text}
-        else:
+        elif layout == 2:
             files = {'main.mal': 'include "mid.mal"\n#id: "r"\n#version: "1.0.0"\n', 'mid.mal': 'include "inc.mal"\n', 'inc.mal': text}
+        else:
+            # the text is the root file and additionally includes a well-formed file, before and after its own content
+            files = {'main.mal': 'include "ok.mal"\n' + text + '\ninclude "ok.mal"\n', 'ok.mal': '#id: "r"\n#version: "1.0.0"\n'}
+            nerr = grammar_errors(files['main.mal'])
         raised, r = compile_files(files)
     if nerr > 0 and not raised:
         return 'text %r (%s) has %d grammar errors but compile() returned a specification with %d assets' % (
-            text, ['root file', 'included file', 'file included by an included file'][layout], nerr, len(r.get('assets', [])) if isinstance(r, dict) else -1)
+            text, ['root file', 'included file', 'file included by an included file', 'root file that also includes a well-formed file'][layout], nerr, len(r.get('assets', [])) if isinstance(r, dict) else -1)
     # the converse (grammar-clean text must compile) is not part of C17: an include of a missing file raises, rightly
     return ''
 
@@ -111,7 +115,7 @@ def judge(text, layout):
 def body_short(cube, **kw):
     n = cube['len']
     parts = [pick(kw['c%d' % i], ALPHA) for i in range(n)]
-    layout = idx(kw['lay'], 3)
+    layout = idx(kw['lay'], 4)
     with notrace(), reclimit():
         return judge(' '.join(parts) if cube.get('spaced') else ''.join(parts), layout)
 
@@ -124,6 +128,8 @@ def body_edit(cube, **kw):
     pos = idx(kw['pos'], nt)
     ins = pick(kw['tok'], cube['alpha']) if op in (1, 2) else ''
     layout = idx(kw['lay'], cube['layouts'])
+    if cube['layouts'] == 2 and layout == 1:
+        layout = 3 if cube.get('alt') else 1
     with notrace(), reclimit():
         t = list(toks)
         if op == 0:
@@ -137,17 +143,61 @@ def body_edit(cube, **kw):
         return judge(' '.join(t), layout)
 
 
+SYM_ALPHA = '#:"a{}E1.$ '
+SYM_ALPHA_WIDE = '#:"a{}E1.$ |&!<->+@[]()*,=/^CIA_z9'
+SYM_ROOT = '#id: "r"\n#version: "1.0.0"\ninclude "inc.mal"\n'
+
+
+def body_symtext(cube, **kw):
+    """Character-level: a *symbolic* string goes through the real lexer, parser and compiler under tracing
+    (the ATN simulators branch on the symbolic characters; z3 decides each branch, paths merge character classes).
+    Every text of this length over the alphabet that contains a non-blank character is erroneous for the grammar
+    (no declaration fits; validated concretely by the witness run), so compile() must raise."""
+    from antlr4 import InputStream
+    from antlr4.dfa.DFA import DFA
+    import maltoolbox.language.compiler as C
+    from maltoolbox.language.compiler.mal_lexer import malLexer
+    from maltoolbox.language.compiler.mal_parser import malParser
+    text = kw['text']
+    included = cube['included']
+    # the static DFA caches make re-execution non-deterministic for the engine: reset them on every path
+    malLexer.decisionsToDFA = [DFA(ds, i) for i, ds in enumerate(malLexer.atn.decisionToState)]
+    malParser.decisionsToDFA = [DFA(ds, i) for i, ds in enumerate(malParser.atn.decisionToState)]
+    if included:
+        C.FileStream = lambda path, encoding='utf-8': InputStream(text if path.endswith('inc.mal') else SYM_ROOT)
+    else:
+        C.FileStream = lambda path, encoding='utf-8': InputStream(text)
+    blank = all(c == ' ' for c in text)
+    try:
+        try:
+            C.MalCompiler().compile('/nonexistent/main.mal')
+        finally:
+            from antlr4 import FileStream as _FS
+            C.FileStream = _FS
+    except Exception as e:
+        if type(e).__name__ == 'NotDeterministic':
+            raise
+        return ''
+    if blank:
+        return ''
+    if not isinstance(text, str) or type(text) is str:
+        # concrete replay / witness: confirm with the counting listener that the grammar does call this text erroneous
+        if grammar_errors(text) == 0:
+            return ''
+    return 'text %r (%s) is erroneous for the grammar but compile() returned a specification' % (text, 'included file' if included else 'root file')
+
+
 def queries(tier):
     qs = []
     maxlen = 2 if tier == 'quick' else 3
     for n in range(0, maxlen + 1):
-        ps = [I('c%d' % i, 0, len(ALPHA) - 1) for i in range(n)] + [I('lay', 0, 2)]
+        ps = [I('c%d' % i, 0, len(ALPHA) - 1) for i in range(n)] + [I('lay', 0, 3)]
         qs.append(Query(name='short%d' % n, body=body_short, params=ps, cubes=[{'len': n, 'spaced': True}],
                         split=(['c0'] if n >= 2 else []) + (['c1'] if n >= 3 else []), timeout=600 if tier == 'quick' else 1700,
                         witnesses=[({'len': n, 'spaced': True}, dict({'c%d' % i: (3, 4, 5)[i] for i in range(n)}, lay=1))],
-                        bound='every text of %d lexeme(s) from the %d-symbol alphabet %s, as root file, as included file and as nested include' % (n, len(ALPHA), ALPHA)))
+                        bound='every text of %d lexeme(s) from the %d-symbol alphabet %s, as root file, as included file, as nested include, and as a root file that also includes a well-formed file' % (n, len(ALPHA), ALPHA)))
     with_tokens = 72
-    ec = {'alpha': ['#', '"x"', 'a', '}', 'E', '1', '.', '$'], 'layouts': 2} if tier == 'quick' else {'alpha': ALPHA, 'layouts': 3}
+    ec = {'alpha': ['#', '"x"', 'a', '}', 'E', '1', '.', '$'], 'layouts': 2} if tier == 'quick' else {'alpha': ALPHA, 'layouts': 4}
     ps = [I('op', 0, 3), I('pos', 0, 97), I('tok', 0, len(ec['alpha']) - 1), I('lay', 0, ec['layouts'] - 1)]
     qs.append(Query(name='edit', body=body_edit, params=ps, cubes=[ec], split=['op', 'lay'], timeout=600 if tier == 'quick' else 1700,
                     witnesses=[(ec, {'op': 0, 'pos': 5, 'tok': 0, 'lay': 0}), (ec, {'op': 3, 'pos': 30, 'tok': 0, 'lay': 1}),
@@ -155,14 +205,29 @@ def queries(tier):
                     bound='a valid program (abstract/extends, let, all step types, tags, CIA, TTC, meta, requires, +>, subType, variable call, association) '
                           'with one token deleted / one lexeme of %s inserted or substituted at every position / truncated at every position, '
                           'in %d layouts (root, included, nested include)' % (ec['alpha'], ec['layouts'])))
+    from xh.spec import P
+    n = 2
+    for inc in ((False,) if tier == 'quick' else (False, True)):
+        qs.append(Query(name='symtext_inc' if inc else 'symtext', body=body_symtext, params=[P('text', 'str')],
+                        cubes=[{'included': inc, 'len': n}], pre=['len(text) <= %d' % n, 'all(c in H.SYM_ALPHA for c in text)'],
+                        timeout=900 if tier == 'quick' else 1700, path_timeout=120, fresh_process=True,
+                        witnesses=[({'included': inc, 'len': n}, {'text': t}) for t in ('a', '{#', ' $', '1.', 'E"')],
+                        bound='SYMBOLIC text of <= %d characters over the alphabet %r, executed through the real ANTLR lexer/parser and the compiler under '
+                              'tracing, as %s' % (n, SYM_ALPHA, 'included file' if inc else 'root file')))
+    if tier != 'quick':
+        qs.append(Query(name='symtext_wide', body=body_symtext, params=[P('text', 'str')],
+                        cubes=[{'included': False, 'len': 2}], pre=['len(text) <= 2', 'all(c in H.SYM_ALPHA_WIDE for c in text)'],
+                        timeout=2400, path_timeout=120, fresh_process=True,
+                        witnesses=[({'included': False, 'len': 2}, {'text': '->'})],
+                        bound='SYMBOLIC text of <= 2 characters over the %d-character alphabet %r through the real lexer/parser/compiler' % (len(SYM_ALPHA_WIDE), SYM_ALPHA_WIDE)))
     return qs
 
 
 META = {
     'bounds': 'token-level: all lexeme sequences of length <= 2 (quick) / 3 (thorough) over a 21-lexeme alphabet; all single-token edits of one valid program; 3 layouts',
-    'outside': ['character-level symbolic text through the ANTLR ATN simulator (2 symbolic characters do not exhaust in 600 s; DESIGN 2.9)',
+    'outside': ['character-level symbolic text beyond 2 characters / beyond the stated alphabets (a fully unconstrained 2-character string does not exhaust in 600 s)',
                 'texts with more than one edit', 'trailing input after a valid program: the grammar has no EOF anchor and reports no error, so the property does not demand rejection'],
-    'stubs': [],
+    'stubs': ['symtext queries: maltoolbox.language.compiler.FileStream -> in-memory InputStream of the symbolic text (contract of a file read); ANTLR decisionsToDFA caches reset on every path'],
     'assumptions': ["the oracle is the repository's own generated lexer/parser with a counting error listener, as the property's quantifier states",
                     'the lexeme picks are decided by the solver; the compiler then runs untraced on the concrete text'],
     'requires': ['MalCompiler.compile', 'malVisitor.visitMal'],
